@@ -39,3 +39,19 @@ let cmd_beststates (t : toks) (buf : Buffer.t) : unit =
     (sr_best_states (nat_of_int ms) (nat_of_int reps) cands)
 
 let () = register "seqs" cmd_seqs; register "srvalues" cmd_srvalues; register "beststates" cmd_beststates
+
+(* egsearch <comp> <gap> <n> <ngames> games(2^n values each) <k> known ids <max_steps> <m> possible ids *)
+let cmd_egsearch (t : toks) (buf : Buffer.t) : unit =
+  let c = computer_of_string (next t) in
+  let g = Cmds_env.gap_of_string (next t) in
+  let n = next_int t in
+  let games = next_list t (fun t -> List.init (1 lsl n) (fun _ -> next_q t)) in
+  let known = next_list t next_n in
+  let ms = next_nat t in
+  let possible = next_list t next_n in
+  match eg_search c g (nat_of_int n) games known ms possible with
+  | None -> add buf "err"
+  | Some (seq, rows) ->
+    print_ids buf seq;
+    List.iter (fun r -> add buf " ;"; print_q_list buf r) rows
+let () = register "egsearch" cmd_egsearch
